@@ -19,6 +19,8 @@ Combos == <<MapBody(<<1, 5>>), MapBody(<<2, 3>>), MapBody(<<4, 17>>), MapBody(<<
             MapBody(<<1, 3, 7>>), MapBody(<<2, 19, 22>>), MapBody(<<21, 32>>), MapBody(<<23, 30, 31>>),
             MapsBody(<<<<1>>, <<5, 7>>>>), MapsBody(<<<<19>>, <<2>>>>), MapsBody(<<<<17, 4>>, <<22>>>>),
             MapsBody(<<<<16>>, <<36>>>>), MapsBody(<<<<41>>, <<42, 43>>>>), MapBody(<<1, 47>>), MapsBody(<<<<47>>, <<5>>>>),
+            \* one field, values of different kinds, OR-linked (list of maps) and AND-linked (one map per detection, see Cases4)
+            MapsBody(<<<<60>>, <<58>>>>), MapsBody(<<<<58>>, <<60>>>>), MapsBody(<<<<17>>, <<58>>>>), MapsBody(<<<<18>>, <<59>>>>), MapsBody(<<<<59>>, <<18>>, <<58>>>>),
             KwBody(1), KwBody(2), KwBody(3), KwBody(4)>>
 Pool == Singles \o Combos
 NP == Len(Pool)
@@ -75,8 +77,14 @@ Cases2 == {[doc |-> Doc3(Pick(i, 1 + r), Pick(i, 2 + r), Pick(i, 3 + r), <<CPrin
 Cases3 == {[doc |-> Doc3(Pick(i, 1), Pick(i, 2), Pick(i, 3), <<C_sel1, CPrint(TreeSeq[i], "min")>>),
             K |-> KSeq[(i % NK) + 1]] : i \in {j \in 1..Len(TreeSeq) : j % 9 = 0}}
 \* (a CIDR network is one atom for a backend with a native CIDR expression, one per text block otherwise)
+\* (4) the same field in two detections, linked by the condition (the in-list shortcut must keep the kinds apart)
+IdxOf(b) == CHOOSE i \in 1..NP : Pool[i] = b
+SameField == <<(<<60, 58>>), (<<58, 60>>), (<<17, 58>>), (<<18, 59>>), (<<59, 18>>)>>
+Cases4 == {[doc |-> Doc3(IdxOf(MapBody(<<SameField[p][1]>>)), IdxOf(MapBody(<<SameField[p][2]>>)), 1, <<c>>), K |-> KSeq[k]] :
+             p \in 1..Len(SameField), k \in 1..NK,
+             c \in {N_sel1 \o <<32,111,114,32>> \o N_sel2, N_sel1 \o <<32,97,110,100,32>> \o N_sel2, <<49,32,111,102,32>> \o P_selstar, <<97,108,108,32,111,102,32>> \o P_selstar}}
 Small(c) == Cardinality(UNION {QAtoms(BodyQE(c.doc.dets[d].body, c.K.cidr).e) : d \in 1..Len(c.doc.dets)}) <= 9
-ASSUME LET A == SetToSeq({c \in Cases1 \cup Cases2 \cup Cases3 : Small(c)})
+ASSUME LET A == SetToSeq({c \in Cases1 \cup Cases2 \cup Cases3 \cup Cases4 : Small(c)})
            mine == SelectSeq([i \in 1..Len(A) |-> [id |-> i] @@ A[i]], LAMBDA c : c.id % NShards = Shard)
        IN  ndJsonSerialize(IOEnv.VERIF_OUT, mine)
 Init == x = 0
